@@ -211,9 +211,9 @@ func genC01(r *rand.Rand, tier string) []Case {
 func init() {
 	register(&Prop{
 		ID: "C01", Num: 1,
-		Gen: genC01,
-		New: func() Case { return &c01Case{} },
-		Rule: "programs of Put/PutBytes/Delete/DeleteBytes/Get over 2-10 keys with forced rotations (+flush wait), synchronous compaction cycles and close/reopen with fresh random options placed at random positions; options: file threshold {0,1,2,3,10}, max size {0,200,400,1000,5Gi}, ratio {0,.2,.5,1}, write/read buffers {1,7,4096,4Mi}; every key read after every structural step. Non-trivial: >=2 structural steps and >=8 steps.",
+		Gen:      genC01,
+		New:      func() Case { return &c01Case{} },
+		Rule:     "programs of Put/PutBytes/Delete/DeleteBytes/Get over 2-10 keys with forced rotations (+flush wait), synchronous compaction cycles and close/reopen with fresh random options placed at random positions; options: file threshold {0,1,2,3,10}, max size {0,200,400,1000,5Gi}, ratio {0,.2,.5,1}, write/read buffers {1,7,4096,4Mi}; every key read after every structural step. Non-trivial: >=2 structural steps and >=8 steps.",
 		Classify: func(cs Case, msg string) string { return classifyC06a(cs.(*c01Case).Steps, msg) },
 		Shrink: func(cs Case) []Case {
 			c := cs.(*c01Case)
